@@ -1,0 +1,149 @@
+//! Verification seams (cargo feature `verif-hooks`, off by default).
+//!
+//! Nothing in this module changes the behaviour of the library unless a *chooser* has been
+//! installed on the current thread. With a chooser installed, every random draw the library makes
+//! (sample visiting order of the SVC trainer, k-means++ seeding, the shuffles of the
+//! model-selection helpers, bootstrap samples and feature sub-sampling of trees and forests) is
+//! answered by the chooser instead of the random number generator, so that a model checker can
+//! enumerate all of them. The module also re-exports a few crate-private items so that they can be
+//! driven directly.
+#![allow(missing_docs)]
+
+use std::cell::{Cell, RefCell};
+
+use crate::linalg::Matrix;
+use crate::math::num::RealNumber;
+
+pub use crate::algorithm::neighbour::bbd_tree::BBDTree;
+pub use crate::algorithm::sort::heap_select::HeapSelection;
+pub use crate::algorithm::sort::quick_sort::QuickArgSort;
+pub use crate::optimization::first_order::lbfgs::LBFGS;
+pub use crate::optimization::first_order::{FirstOrderOptimizer, OptimizerResult};
+pub use crate::optimization::line_search::{Backtracking, LineSearchMethod, LineSearchResult};
+pub use crate::optimization::{FunctionOrder, DF, F};
+
+/// The random draw sites of the crate.
+#[derive(Clone, Copy, Debug, PartialEq, Eq, Hash)]
+pub enum Draw {
+    SvcShuffle = 0,
+    KMeansFirst = 1,
+    KMeansCutoff = 2,
+    SplitShuffle = 3,
+    KFoldShuffle = 4,
+    ForestRegressorBootstrap = 5,
+    ForestClassifierBootstrap = 6,
+    TreeFeatureShuffle = 7,
+}
+
+pub const N_SITES: usize = 8;
+
+type Chooser = Box<dyn FnMut(Draw, usize) -> usize>;
+
+thread_local! {
+    static CHOOSER: RefCell<Option<Chooser>> = RefCell::new(None);
+    static HITS: RefCell<[u64; N_SITES]> = RefCell::new([0; N_SITES]);
+    static GRID: Cell<(usize, bool)> = Cell::new((64, false));
+}
+
+/// Install a chooser on this thread: `f(site, n)` must return a value in `0..n`.
+pub fn install(f: Chooser) {
+    CHOOSER.with(|c| *c.borrow_mut() = Some(f));
+}
+
+/// Remove the chooser; the library draws from its random number generators again.
+pub fn clear() {
+    CHOOSER.with(|c| *c.borrow_mut() = None);
+}
+
+/// Number of grid points offered for a uniform draw from [0,1), and whether the two edge answers
+/// (exactly 0 and the largest double below 1) are offered as well.
+pub fn set_unit_grid(grid: usize, edges: bool) {
+    GRID.with(|g| g.set((grid.max(1), edges)));
+}
+
+/// How often each seam was answered by the chooser on this thread.
+pub fn sites_hit() -> [u64; N_SITES] {
+    HITS.with(|h| *h.borrow())
+}
+
+pub fn reset_sites_hit() {
+    HITS.with(|h| *h.borrow_mut() = [0; N_SITES]);
+}
+
+/// `None` when no chooser is installed, the chooser's answer in `0..n` otherwise.
+pub fn choose(site: Draw, n: usize) -> Option<usize> {
+    if n == 0 {
+        return None;
+    }
+    let mut f = CHOOSER.with(|c| c.borrow_mut().take())?;
+    let r = f(site, n);
+    CHOOSER.with(|c| {
+        let mut slot = c.borrow_mut();
+        if slot.is_none() {
+            *slot = Some(f);
+        }
+    });
+    assert!(r < n, "verif chooser answered {} for a draw from 0..{}", r, n);
+    HITS.with(|h| h.borrow_mut()[site as usize] += 1);
+    Some(r)
+}
+
+/// A uniform draw from [0,1): one of the grid mid-points (j + 1/2) / grid, or an edge answer.
+pub fn unit_draw(site: Draw) -> Option<f64> {
+    let (grid, edges) = GRID.with(|g| g.get());
+    let n = if edges { grid + 2 } else { grid };
+    let j = choose(site, n)?;
+    Some(if j < grid {
+        (j as f64 + 0.5) / grid as f64
+    } else if j == grid {
+        0.0
+    } else {
+        1.0 - f64::EPSILON / 2.0
+    })
+}
+
+/// Replace a shuffled index vector by a chooser-driven Fisher-Yates shuffle of the same elements
+/// (sorted first, so that the result depends on the chooser only). Every permutation is produced
+/// by exactly one answer sequence. No-op without a chooser.
+pub fn reshuffle(site: Draw, v: &mut [usize]) {
+    let installed = CHOOSER.with(|c| c.borrow().is_some());
+    if !installed {
+        return;
+    }
+    v.sort_unstable();
+    for i in (1..v.len()).rev() {
+        if let Some(j) = choose(site, i + 1) {
+            // answer 0 keeps the element in place, so the all-zero schedule is the identity
+            v.swap(i, i - j);
+        }
+    }
+}
+
+/// Result of one tree-accelerated assignment step.
+#[derive(Debug, Clone)]
+pub struct BbdClustering<T> {
+    pub sums: Vec<Vec<T>>,
+    pub counts: Vec<usize>,
+    pub membership: Vec<usize>,
+    pub distortion: T,
+}
+
+/// Build the crate-private BBD tree over `data` and run one assignment step for `centroids`.
+pub fn bbd_clustering<T: RealNumber, M: Matrix<T>>(
+    data: &M,
+    centroids: &[Vec<T>],
+) -> BbdClustering<T> {
+    let (n, d) = data.shape();
+    let k = centroids.len();
+    let tree = BBDTree::new(data);
+    let mut sums = vec![vec![T::zero(); d]; k];
+    let mut counts = vec![0usize; k];
+    let mut membership = vec![0usize; n];
+    let distortion = tree.clustering(centroids, &mut sums, &mut counts, &mut membership);
+    BbdClustering {
+        sums,
+        counts,
+        membership,
+        distortion,
+    }
+}
